@@ -110,18 +110,24 @@ def fail(clause, detail=''):
 
 def done(witness=True, kind=None, **sample):
     """Mark the end of a completed path; `witness` says the interesting predicate was reached."""
+    w = True if witness else False          # decided under tracing (may be symbolic)
+    reprs = None
+    if sample and len(STATE['samples']) < _MAX_SAMPLES:
+        try:
+            reprs = {k: repr(v)[:80] for k, v in sample.items()}
+        except Exception:
+            reprs = None
     with _notrace():
         STATE['paths'] += 1
-        if witness:
+        if w:
             STATE['witness'] += 1
             if kind is not None:
                 wk = STATE['witness_kinds']
                 wk[kind] = wk.get(kind, 0) + 1
-        if sample and len(STATE['samples']) < _MAX_SAMPLES:
-            try:
-                STATE['samples'].append({k: repr(v)[:80] for k, v in sample.items()})
-            except Exception:
-                pass
+        if reprs is not None and len(STATE['samples']) < _MAX_SAMPLES:
+            reprs = {k: v for k, v in reprs.items() if type(k) is str and type(v) is str}   # drop symbolic reprs
+            if reprs:
+                STATE['samples'].append(reprs)
     return True
 
 
